@@ -340,6 +340,9 @@ std::string exec_case(const vh::Args &a) {
         std::string o;
         try { o = child_body(c); } catch (const std::exception &e) { o = std::string("error exception:") + typeid(e).name(); }
         size_t off = 0; while (off < o.size()) { ssize_t w = write(po[1], o.data() + off, o.size() - off); if (w <= 0) break; off += (size_t)w; }
+#ifdef VH_COVERAGE
+        vh::__gcov_dump();
+#endif
         _exit(0);
     }
     close(po[1]); close(pe[1]);
